@@ -33,8 +33,8 @@ var solvers = []solverSpec{
 
 var retryPortfolio = []solverSpec{
 	// the default configurations again with a longer budget (a loaded machine), then variations
-	{"z3-5.1.0", func(f string, t int) []string { return []string{"z3-new", fmt.Sprintf("-T:%d", t+5), f} }},
-	{"z3-4.8.12", func(f string, t int) []string { return []string{"z3", fmt.Sprintf("-T:%d", t+5), f} }},
+	{"z3-5.1.0", func(f string, t int) []string { return []string{"z3-new", fmt.Sprintf("-T:%d", t+15), f} }},
+	{"z3-4.8.12", func(f string, t int) []string { return []string{"z3", fmt.Sprintf("-T:%d", t+15), f} }},
 	{"z3-5.1.0 auto_config=false", func(f string, t int) []string {
 		return []string{"z3-new", fmt.Sprintf("-T:%d", t), "auto_config=false", f}
 	}},
@@ -48,7 +48,7 @@ var retryPortfolio = []solverSpec{
 }
 
 func runSolver(s solverSpec, file string, timeoutS int) (status string, out string, ms int64) {
-	ctx, cancel := context.WithTimeout(context.Background(), time.Duration(timeoutS+2)*time.Second)
+	ctx, cancel := context.WithTimeout(context.Background(), time.Duration(timeoutS+20)*time.Second)
 	defer cancel()
 	argv := s.argv(file, timeoutS)
 	if seed := os.Getenv("GOVC_SEED"); seed != "" && strings.HasPrefix(argv[0], "z3") {
@@ -229,7 +229,7 @@ func dischargeAll(obls []*Obligation, opt dischargeOpts) {
 	if opt2.timeoutS < 30 {
 		opt2.timeoutS = 30
 	}
-	sem2 := make(chan struct{}, 8)
+	sem2 := make(chan struct{}, 4)
 	for _, i := range again {
 		wg.Add(1)
 		sem2 <- struct{}{}
